@@ -7,3 +7,9 @@ for p in ("C01", "C02", "C03", "C04", "C05", "C15"):
 
 import c14_check
 CHECKS["C14"] = c14_check.run
+
+import c17_check
+CHECKS["C17"] = c17_check.run
+
+import c10_check
+CHECKS["C10"] = c10_check.run
